@@ -59,6 +59,7 @@ type SPConfig struct {
 	EncLeaf    *Cert    // TLS key store style: tls.Certificate.Leaf (a parsed-certificate cache) set to this certificate
 	EncCertRaw []byte   // when non-nil: the key store hands out these bytes instead (empty / unparsable certificate faults)
 	EncKeyErr  error    // when non-nil: the field key store fails
+	EncTLSMode int      // KeyTLS only: 1 = tls.Certificate with a private key but an empty chain, 2 = nil chain, 3 = zero value, 4 = chain holding one empty certificate
 	SigStyle   KeyStyle // KeyNone = no separate signing key
 	SigKeyIdx  int
 	SigCert    *Cert
@@ -177,6 +178,18 @@ func NewSPNode(cfg *SPConfig, simNow func() time.Time) (*SPNode, error) {
 			sp.SPKeyStore = dsig.TLSCertKeyStore(tc)
 		}
 	}
+	if cfg.EncTLSMode != 0 && cfg.EncStyle == KeyTLS {
+		switch cfg.EncTLSMode {
+		case 1:
+			sp.SPKeyStore = dsig.TLSCertKeyStore(tls.Certificate{Certificate: [][]byte{}, PrivateKey: Key(cfg.EncKeyIdx).Signer})
+		case 2:
+			sp.SPKeyStore = dsig.TLSCertKeyStore(tls.Certificate{PrivateKey: Key(cfg.EncKeyIdx).Signer})
+		case 3:
+			sp.SPKeyStore = dsig.TLSCertKeyStore(tls.Certificate{})
+		default:
+			sp.SPKeyStore = dsig.TLSCertKeyStore(tls.Certificate{Certificate: [][]byte{{}}, PrivateKey: Key(cfg.EncKeyIdx).Signer})
+		}
+	}
 	if err := applyKey(sp, cfg.SigStyle, cfg.SigKeyIdx, cfg.SigCert, true); err != nil {
 		return nil, err
 	}
@@ -278,6 +291,10 @@ func Guard(f func() error) (out Outcome) {
 		}
 	}()
 	out.Err = f()
+	if out.Err != nil {
+		// rendering the error belongs to the call: an Error method that panics is a panic of the entry point
+		_ = out.Err.Error()
+	}
 	return
 }
 
